@@ -280,7 +280,8 @@ def filter_shape(w, fname):
         raise Unsupported(f"{fname} is not in filter shape")
     drop_ret = b[0].body[0].value
     keep_ret = b[1].value
-    if ast.unparse(drop_ret) != f"{fname}({r})" or ast.unparse(keep_ret) != f"{cp.cls.id}({c}, {fname}({r}))":
+    extra = "".join(", " + p for p, _ in f.params[1:])
+    if ast.unparse(drop_ret) != f"{fname}({r}{extra})" or ast.unparse(keep_ret) != f"{cp.cls.id}({c}, {fname}({r}{extra}))":
         raise Unsupported(f"{fname} is not in filter shape")
     return b[0].test, c
 
@@ -300,6 +301,13 @@ def comprehension(I, e):
             raise Unsupported(f"comprehension {k}: filter {rule.fn} is over {f.params[0][1]}, source is {src.sort}")
         drop_test, cvar = filter_shape(I.w, rule.fn)
         cons = {"NodeList": "NCons"}.get(src.sort) or getattr(I, "extra_list_shapes", {}).get(src.sort, (None, None))[1]
+        xenv = {}
+        for n_, v_ in I.st.env.items():
+            try:
+                xenv[n_] = I.to_val(v_)
+            except Unsupported:
+                pass
+        extra_vals = [spec_term(I, rule.args[pn], xenv, f"comp{k}", want=ps) for pn, ps in f.params[1:]]
         esort = I.ctor(cons).fields[0][1]
         x = I.from_val(Val(esort, I.fresh(esort, g.target.id)))
         tag = f"{I.short()}:comp{k}"
@@ -313,7 +321,10 @@ def comprehension(I, e):
         mkey = tag + "@" + "".join(map(str, I.trace.decisions))
         if mkey not in memo:
             paths = I.explore(run)
-            drop = I.w.eval(drop_test, {cvar: I.to_val(x)}, SpecFn(tag, [], "Bool", "spec"), want="Bool")
+            denv = {cvar: I.to_val(x)}
+            for (pn, _ps), ev in zip(f.params[1:], extra_vals):
+                denv[pn] = ev
+            drop = I.w.eval(drop_test, denv, SpecFn(tag, [], "Bool", "spec"), want="Bool")
             for pi, p in enumerate(paths):
                 if p.outcome != "return":
                     I.obligations.append(Obligation(f"R:{tag}.filter.p{pi}", list(p.pc), z3.BoolVal(False), I.src.line(I.module, e), "R", "filter condition raises"))
@@ -321,7 +332,7 @@ def comprehension(I, e):
                 I.obligations.append(Obligation(f"R:{tag}.filter.p{pi}", list(p.pc), p.value.t == z3.Not(drop.v), I.src.line(I.module, e), "R",
                                                 f"comprehension condition ≡ keep-predicate of {rule.fn}"))
             memo[mkey] = True
-        return SAdt(src.sort, I.w.apply(rule.fn, src.t), fresh=True)
+        return SAdt(src.sort, I.w.apply(rule.fn, src.t, *[ev.v for ev in extra_vals]), fresh=True)
     # element-wise over a concrete-length sequence
     items = I.iter_concrete(src, e)
     out = []
